@@ -1,5 +1,6 @@
 import KawinV.Proto
 import KawinV.Model.Solver
+import KawinV.Model.Flatten
 import KawinV.Gen.C06Tableau
 /-! driver verbs for C06: the hand model of the iterators and the general Runge-Kutta step with the
 GENERATED tableau, on `Float`, for a small family of right-hand sides that exists identically in
@@ -95,12 +96,75 @@ def solveV : P String := do
   let r := solveX t0 tf mn mx (fun _ => Dt.fin h) (fun _ => false) iter x0 fuel
   pure s!"{r.1.steps.length} {fout r.1.cur} {flist r.2}"
 
+/-- rk.buf shared(T|F) E|R ode p q t dt x(list) → the iterator for a right-hand side that reuses ONE work array, the
+flatten function between model and iterator sharing it (T) or copying (F): same answer format as rk.iter -/
+def iterBuf : P String := do
+  let sh ← bool
+  let k ← tok; let ode ← nat; let p ← flt; let q ← flt; let t ← flt; let dt ← flt; let x ← flts
+  let f := rhs ode p q
+  let out ← (if k == "E" then pure (eulerIterBuf sh listOps f dt t x)
+             else if k == "R" then pure (rk4IterBuf sh listOps f dt t x) else failure)
+  pure s!"{flist out.xnew} {flist (out.calls.map Prod.fst)} {flist (out.calls.flatMap Prod.snd)} {flist out.xold}"
+
+/-- round-to-nearest-even to binary16 (normal range; below 2^-14 the fixed quantum 2^-24; above 65504 → inf), as a double -/
+def rnd16 (x : Float) : Float :=
+  if x.isNaN || x.isInf || x == 0.0 then x else
+  let a := x.abs
+  if a >= 65520.0 then (if x > 0.0 then 1.0 / 0.0 else -1.0 / 0.0) else
+  let e : Int := (Float.frExp a).2 - 1                 -- 2^e ≤ a < 2^(e+1)
+  let qe : Int := (if e < -14 then -14 else e) - 10    -- exponent of the quantum
+  let c := Float.scaleB 1.5 (52 + qe)                  -- adding and subtracting c rounds to a multiple of 2^qe, ties to even
+  let r := (a + c) - c
+  if x < 0.0 then -r else r
+
+/-- the number formats a model can answer `getDt` in: 64 (Python float, np.float64, int, 0-d double array), 32, 16 -/
+def rndFmt (fmt : Nat) : Option (Float → Float) :=
+  if fmt == 64 then some id
+  else if fmt == 32 then some (fun x => x.toFloat32.toFloat)
+  else if fmt == 16 then some rnd16
+  else none
+
+/-- rk.solvefmt fmt E|R t0 tf minFrac maxFrac h fuel nblocks (ode p q x(list))* → `solveXR rnd`: the DESolver.solve
+loop with the state for a model that answers getDt with the constant h IN THE FORMAT fmt:
+nsteps, final time, final state, accepted times (oldest first), accepted steps (oldest first) -/
+def solveFmt : P String := do
+  let fmt ← nat
+  let k ← tok; let t0 ← flt; let tf ← flt; let mn ← flt; let mx ← flt; let h ← flt; let fuel ← nat
+  let bl ← lst block
+  let f := rhsBlocks (bl.map Prod.fst)
+  let x0 := bl.flatMap Prod.snd
+  let rnd ← (match rndFmt fmt with | some r => pure r | none => failure)
+  let iter ← (if k == "E" then pure (fun dt t x => (eulerIter listOps f dt t x).xnew)
+              else if k == "R" then pure (fun dt t x => (rk4Iter listOps f dt t x).xnew) else failure)
+  let r := solveXR rnd t0 tf mn mx (fun _ => Dt.fin h) (fun _ => false) iter x0 fuel
+  pure s!"{r.1.steps.length} {fout r.1.cur} {flist r.2} {flist r.1.times.reverse} {flist r.1.dts.reverse}"
+
+/-- rk.rnd fmt x → the rounding function of the format on one number -/
+def rndV : P String := do
+  let fmt ← nat; let x ← flt
+  match rndFmt fmt with
+  | some r => pure (fout (r x))
+  | none => failure
+
+/-- rk.own M|C|I → does the flatten function of the site hand back memory of its argument (T) or a new array (F):
+GenericModel.flattenX, Coupler.flattenX, DESolver.flattenXNotImplemented -/
+def ownV : P String := do
+  let k ← tok
+  if k == "M" then pure (bstr (KawinV.Flatten.flattenOwnership ([] : List (KawinV.Flatten.Item Float))).isShared)
+  else if k == "C" then pure (bstr (KawinV.Flatten.flattenCOwnership ([] : List (List (KawinV.Flatten.Item Float)))).isShared)
+  else if k == "I" then pure (bstr KawinV.Flatten.identityOwnership.isShared)
+  else failure
+
 def handle (verb : String) : Option (P String) :=
   match verb with
   | "rk.tableau" => some tableau
   | "rk.iter" => some iter
   | "rk.tabstep" => some tabstep
   | "rk.solve" => some solveV
+  | "rk.buf" => some iterBuf
+  | "rk.solvefmt" => some solveFmt
+  | "rk.rnd" => some rndV
+  | "rk.own" => some ownV
   | _ => none
 
 end KawinV.Drv.C06
